@@ -5,4 +5,21 @@ CHECKS = {
         "technique": "symbolic execution (CrossHair + z3) of the real align/nw_align/add_x, per-path postcondition, counterexample replay",
     },
 }
+CHECKS.update({
+    "C02": {
+        "text": "CrossHair/z3 executes the real session pipeline (snapshot() call sites, value classes, adapters, _align, all Change kinds, apply_all, generic_sequence_update, ChangeRecorder, SourceFile.new_code, real tokenizer and black) on template tests whose leaves are symbolic ints; every equality pattern between previous and observed elements (hence every edit script within the bound) is a solver-explored path, and on each path the solver decides that all recorded comparisons hold against the values read back from the rewritten text.",
+        "note": "Bounds: container sizes / shapes listed in evidence.bounds; int leaves only (rendering of a symbolic int is stubbed as a name token; replays use real repr); concrete dict keys; black/executing/asttokens run concretely on the concrete program text. Counterexamples are replayed concretely with real literals before VIOLATION is printed.",
+        "technique": "symbolic execution (CrossHair + z3) of the real create/fix pipeline on template programs with symbolic data; per-path oracle decided by the solver; concrete replay",
+    },
+    "C05": {
+        "text": "For every operation (==, <=, >=, in, [key]) one call site is evaluated up to m times with symbolic ints; for each of the 16 approved subsets CrossHair/z3 explores all paths of the real value classes and change application and the solver decides on each path that reported categories and the value read back from the rewritten text equal an independent model of docs/categories.md; update-only application is shown value-preserving.",
+        "note": "Bounds: m<=3 (4) evaluations, previous lists <=2 (3), key patterns enumerated; totally ordered ints; update_flags = approved subset. Trusted: the 60-line documented model in harness/c05.py, CrossHair/z3.",
+        "technique": "symbolic execution (CrossHair + z3) of the real value classes against an executable model of the documented category algebra",
+    },
+    "C06": {
+        "text": "With no category flag, the recorded result of every comparison form against snapshot(v) is compared by the solver, on every path and for all symbolic values, with the result of the same comparison against the plain value; mixed operations must raise TypeError; the disabled state must return the identical object.",
+        "note": "Bounds: <=3 comparisons per snapshot, shapes listed in evidence; ints and containers of ints; comparisons that do not raise on the plain value. The routes into the disabled state (flags, CI, xdist, xfail) are decided under C04.",
+        "technique": "symbolic execution (CrossHair + z3) of the real comparison operators vs. plain Python comparison, differential per path",
+    },
+})
 NOT_APPLICABLE = {}
